@@ -49,6 +49,9 @@ impl Prop for C01 {
         v.push("route:Number-with-wrapped-floats".to_string());
         for m in ["__add__", "__radd__", "__sub__", "__rsub__", "__mul__", "__rmul__", "__truediv__", "__rtruediv__", "__pow__", "__neg__", "__abs__", "__exp__", "__log__", "__norm_cdf__", "__norm_inv_cdf__"] {
             v.push(format!("py:Dual:{}", m));
+            if !m.starts_with("__pow") && !["__neg__", "__abs__", "__exp__", "__log__", "__norm_cdf__", "__norm_inv_cdf__"].contains(&m) {
+                v.push(format!("py:Dual:{}:float-zero", m));
+            }
         }
         v.push("py:conversions".to_string());
         v
